@@ -1,4 +1,5 @@
-import DcmVerif.Props.Source
+import DcmVerif.Props.SourceMeta
+import DcmVerif.Props.SourceStack
 import DcmVerif.Proofs.EndToEnd
 import DcmVerif.Props.C01_stack
 /-! Property theorems for C01. Statements only; proofs are by reference to `Proofs/`. -/
